@@ -82,6 +82,16 @@ MUTANTS = {
                              '        self._calculate_refsystems(refmolecule)\n        self._make_map()\n        new_mol = self._restore_molecule()'),
  'C04-hidden-randomness': ('C04', XM, '        self._calculate_refsystems(refmolecule)\n        new_mol = self._restore_molecule()',
                            '        self._calculate_refsystems(refmolecule)\n        np.random.rand()\n        new_mol = self._restore_molecule()'),
+ 'C05-counter-reset-per-molecule': ('C05', MG, '                new_mol = complete_correspondence[name].exchange_map(mol)  # type: ignore\n', '                new_mol = complete_correspondence[name].exchange_map(mol)  # type: ignore\n                atom_index = 1\n'),
+ 'C05-box-not-forwarded': ('C05', MG, '            fgro.box_matrix = self.system.system_gro.box_matrix\n', ''),
+ 'C05-title-not-forwarded': ('C05', MG, '            fgro.comment = self.system.system_gro.comment_line\n', ''),
+ 'C05-grouped-by-species': ('C05', MG, '            for mol in self.system:\n                name = mol.name', '            for mol in sorted(self.system, key=lambda m: m.name):\n                name = mol.name'),
+ 'C05-atom-number-gap': ('C05', MG, '                    atom_index += 1\n', '                    atom_index += 1 if atom_index != 7 else 2\n'),
+ 'C05-maps-check-skipped': ('C05', MG, '            if align.exchange_map is None:', '            if False:'),
+ 'C05-file-opened-before-checks': ('C05', MG, "        complete_correspondence = self.complete_correspondence\n        # Check if there is something to map", "        complete_correspondence = self.complete_correspondence\n        open(fgro_out, 'w').close()\n        # Check if there is something to map"),
+ 'C05-last-molecule-dropped': ('C05', MG, '            for mol in self.system:\n                name = mol.name', '            for mol in list(self.system)[:-1] or list(self.system):\n                name = mol.name'),
+ 'C05-resids-from-template': ('C05', XM, '        new_mol.resids = refmolecule.resids\n', ''),
+ 'C05-incomplete-species-written': ('C05', MG, '                if name not in complete_correspondence:\n                    continue', '                if name not in complete_correspondence:\n                    for atom in mol:\n                        line = atom.gro_line()\n                        line[3] = atom_index\n                        atom_index += 1\n                        fgro.writeline(line)\n                    continue'),
 }
 
 
